@@ -365,7 +365,9 @@ theorem eCmp_refuses (st : St) (a b r : Win) (f : BinF)
     operands and then adds operand `a` (now holding the result) into `incr`. -/
 theorem eOpIncr_dispatch (st : St) (a b incr : Win) (f fv : BinF) :
     eOpIncr st a b incr f fv =
-      if a.len = 1 ∧ b.len = 1 then (do
+      if ((a.len = 1 ∧ b.len ≠ 1) ∨ (b.len = 1 ∧ a.len ≠ 1)) ∧ incr.len = 1 then
+        .error (.err "Cannot increment on scalar increment")
+      else if a.len = 1 ∧ b.len = 1 then (do
         let s ← kVV st a b fv
         if incr.len ≠ 1 then eOp s incr a (fun x y => .app2 "add" x y)
         else s.wr incr 1 0 (accAdd (← s.rd incr 1 0) (← s.rd a 1 0)))
@@ -373,13 +375,19 @@ theorem eOpIncr_dispatch (st : St) (a b incr : Win) (f fv : BinF) :
       else if b.len = 1 then (do kIncrVS st a (← st.rd b 1 0) incr f accAdd)
       else kIncrVV st a b incr fv accAdd := by
   by_cases ha : a.len = 1 <;> by_cases hb : b.len = 1
-  · simp only [ha, hb, and_self, if_true]
+  · simp only [ha, hb, and_self, if_true, ne_eq, not_true_eq_false, and_false, or_self, false_and, if_false]
     exact eOpIncr_SS st a b incr f fv ha hb
-  · simp only [ha, hb, and_false, if_false, if_true]
-    exact eOpIncr_SV st a b incr f fv ha hb
-  · simp only [ha, hb, false_and, if_false, if_true]
-    exact eOpIncr_VS st a b incr f fv ha hb
-  · simp only [ha, hb, and_self, if_false]
+  · by_cases hi : incr.len = 1
+    · simp only [ha, hb, hi, ne_eq, not_false_eq_true, and_self, not_true_eq_false, and_false, or_false, if_true]
+      exact eOpIncr_refuses st a b incr f fv (Or.inl ⟨ha, hb⟩) hi
+    · simp only [ha, hb, hi, and_false, if_false, if_true]
+      exact eOpIncr_SV st a b incr f fv ha hb hi
+  · by_cases hi : incr.len = 1
+    · simp only [ha, hb, hi, ne_eq, not_false_eq_true, and_self, not_true_eq_false, and_false, false_or, if_true]
+      exact eOpIncr_refuses st a b incr f fv (Or.inr ⟨hb, ha⟩) hi
+    · simp only [ha, hb, hi, and_false, false_and, if_false, if_true]
+      exact eOpIncr_VS st a b incr f fv ha hb hi
+  · simp only [ha, hb, and_self, if_false, false_and, or_self]
     exact eOpIncr_VV st a b incr f fv ha hb
 
 /-- Known defect F32, stated as what the model (= the Go code) does: with two length-one operands,
